@@ -106,6 +106,7 @@ def rich_font(draw, max_base=5, kinds=("line", "curve"), with_layers=True, with_
                             {"name": "transformations", "kwargs": {"ScaleX": 110, "Origin": 2}, "exclude": names[:1]},
                             {"name": "decomposeComponents", "include": names[-2:]},
                             {"name": "reverseContourDirection", "include": names[:1]},
+                            {"name": "DottedCircle", "pre": True},
                         ]
                     ),
                     min_size=1,
@@ -137,7 +138,19 @@ def rich_font(draw, max_base=5, kinds=("line", "curve"), with_layers=True, with_
         for g in glyphs:
             if chance(draw, 1, 6):
                 g["lib"] = {"public.truetype.overlap": True, "com.example.note": [1, 2.5, "x"]}
-    if with_layers and chance(draw, 1, 3):
+    if with_layers and with_lib and chance(draw, 1, 8):
+        # colour layers (arms ExplodeColorLayerGlyphsFilter): known finding KF-C07-2
+        cg = simple[0]
+        lib["com.github.googlei18n.ufo2ft.colorPalettes"] = [[[1, 0, 0, 1], [0, 1, 0, 1]]]
+        gl = next(g for g in glyphs if g["name"] == cg)
+        gl.setdefault("lib", {})["com.github.googlei18n.ufo2ft.colorLayerMapping"] = [["color1", 0], ["color2", 1]]
+        tri = [[0, 0, "line"], [60, 0, "line"], [30, 50, "line"]]
+        spec["layers"] = [
+            {"name": "color1", "glyphs": [{"name": cg, "width": gl["width"], "unicodes": list(gl.get("unicodes", [])), "contours": [tri]}]},
+            {"name": "color2", "glyphs": [{"name": cg, "width": gl["width"], "contours": [[[10, 10, "line"], [50, 10, "line"], [30, 40, "line"]]], "components": [{"base": simple[1], "t": [1, 0, 0, 1, 5, 5]}]},
+                                          {"name": simple[1], "width": 300, "unicodes": [0xE000], "contours": [tri]}]},
+        ]
+    elif with_layers and chance(draw, 1, 3):
         spec["layers"] = [{"name": "public.background", "lib": {"bg": [1, 2]}, "glyphs": [{"name": simple[0], "width": 10, "contours": [[[0, 0, "line"], [7, 0, "line"], [7, 9.5, "line"]]]}]}]
     return spec
 
